@@ -32,6 +32,7 @@ META = {
     "budget_s": {"quick": 40, "thorough": 300},
     "min_evals": {"quick": 20000, "thorough": 400000},
     "deciding": ["wires.construct", "wires.setops", "wires.helpers", "wires.indexing", "wires.eqhash", "wires.unique_invariant"],
+    "allow_rejections": True,  # rejections are counted per call (WireError on invalid operands), cases per operand triple
     "rule": "three label lists per case drawn without replacement from a per-case pool of 4-12 labels (flavours: ints / "
             "ints+strings / ints+strings+tuples / numpy-ints+ints+strings); distinct = distinct (A,B,C) repr; "
             "non-trivial = A and B both non-empty, overlapping but not equal as sets",
